@@ -11,9 +11,33 @@ CLAIMED = {
     'C02': dict(design='§6 C02', technique='Lean 4 proof (order-independent adoption invariant by induction over pops) + trace validation incl. heap contents',
                 text='Exactly-once/none-skipped proved for every well-formed grid and every intermediate state via the adoption-system invariant; real heap compared with the model multiset after every pop.',
                 note='same trusted base as C01'),
+    'C04': dict(design='§6 C04', technique='Lean 4 proof (recGuesses = product of groups, structural induction) + exact output diff of create_guesses',
+                text='The model of _recursive_guesses is proved equal to the product-of-groups specification with count = lines; limit fragments regenerated from source; real create_guesses output compared line by line.',
+                note='str.upper per character is a parameter; OMEN level content is C10'),
+    'C07': dict(design='§6 C07', technique='Lean 4 proof (writer/loader round trip over code-point strings) + generated check_valid table + exhaustive Unicode table validation + real writer/3 loaders',
+                text='Round-trip theorems for the guesser and scorer loaders over every clean value; key lemma decided over the rejected-code-point table extracted from check_valid; line-boundary/whitespace tables validated against the interpreter over all code points each run.',
+                note='codec internals, float repr round trip, configparser/json are runtime'),
     'C08': dict(design='§6 C08', technique='Lean 4 proof (restore walk = roots of the sub-system of nodes ≤ saved probability) + trace validation from every cut point',
-                text='Resume emits exactly the nodes of probability ≤ the saved value, once each, in order; proved for all grids / cut values / tie patterns; real restore compared with the model at cut points.',
+                text='Resume emits exactly the nodes of probability ≤ the saved value, once each, in order; nothing lost, repeats only tied; proved for all grids / cut values / tie patterns; real restore compared with the model at cut points.',
                 note='session file I/O (configparser float round-trip) trusted; multi-cycle histories reduce to the single saved float'),
+    'C09': dict(design='§6 C09', technique='Lean 4 proof (limit = take n, across pre-terminal, mask loop, Markov level, session loop) + generated print-site table (decide) + subprocess stdout diff',
+                text='Static: every output call site regenerated from source, only print_guess may reach stdout (decide). Dynamic: limit theorems for all N; CLI stdout compared byte for byte.',
+                note='OS pipe behaviour; AST scan finds print/sys.stdout.write/traceback sites only'),
+    'C10': dict(design='§6 C10', technique='Lean 4 proof (refinement of the backtracking enumerator to a specification list; cursor coverage) + exact sequence diff of MarkovCracker',
+                text='level_exact: the generator emits exactly the strings of the level, once, then exhaustion, for every well-formed table; real MarkovCracker sequences (fresh and warmed shared cache) equal the model and a brute-force level set.',
+                note='cache independence is shown by correspondence with warmed caches, not yet by a Lean lemma'),
+    'C14': dict(design='§6 C14', technique='Lean 4 proof (loadBase skip = filter + rescale; case insertion) + loader correspondence + stream comparison + CLI save/restore',
+                text='Loader theorems for every grammar.txt text incl. no-M; streams compared exactly where 1-P(M) is a power of two; flags through --load by subprocess.',
+                note='stream equality over doubles holds up to rounding of the rescaling (stated)'),
+    'C16': dict(design='§6 C16', technique='Lean 4 proof (pick = interval characterisation for every draw; membership; count) + scripted-draw correspondence at every breakpoint ±1 ulp',
+                text='Draws are universally quantified model inputs; selected index iff draw in (S_{j-1}, S_j]; every word in the product of the selected groups; exactly N words.',
+                note='measure = interval length on paper; Mersenne Twister determinism trusted'),
+    'C17': dict(design='§6 C17', technique='Lean 4 proof (princeLoop size = take N; C01/C02 on the Prince grid) + subprocess diff for every N inside tie groups',
+                text='--size theorem for all N and pop sequences; order/each-once from the PQ theorems; stdout vs -o file vs in-process stream.',
+                note='same trusted base as C01/C04/C09'),
+    'C20': dict(design='§6 C20', technique='Lean 4 proof (three filters = List.filter on rows, tokens = labels) + exact text diff of edit_rules + directory hashes',
+                text='Filter theorems for all well-formed grammar files and options; real edit_rules output compared byte for byte; other files hashed.',
+                note='user regex abstract; X label length is a recorded known finding'),
 }
 NOT_YET = 'check not built yet in this round (machinery under construction); see DESIGN.md §6'
 
